@@ -50,6 +50,8 @@ EXPLANATION = ("Theorems: unbox_box (what `_box` produces, the peer's `_unbox` a
                "same type tree / a proxy of the same key / the original for a handed-back proxy, through tuples of any shape), "
                "value_transfer (the same through brine, by C04.load_dump, and label-tree parsing), by_value_iff_plain, "
                "subclass_by_ref, tuple_with_reference_not_value, echo_identity (+ reachable: with C10.alive_while_held), "
+               "unbox_two_pass_agrees (resolve-then-create = the one-pass walk on every accepted package), "
+               "missing_local_ref_refused_first (KeyError before anything is created), "
                "proxy_unique, same_proxy_twice, proxy_survives_traffic, fresh_proxy_is_new, box_unbox_counts (bridge to the "
                "C10 machine), labels_distinct (generated constants).")
 
